@@ -20,7 +20,7 @@ type C09Case struct {
 
 func GenC09() *rapid.Generator[C09Case] {
 	sg := genScenario(ScenarioCfg{MaxEpochs: pick(20, 45), FitnessKinds: []string{"constant", "uniform", "heavy", "dominant", "distinct", "stagnating", "sparse", "genome"},
-		Parallel: 0, MinPop: 4})
+		Parallel: 0, MinPop: 4, DupIds: true})
 	return rapid.Custom(func(t *rapid.T) C09Case {
 		c := C09Case{Sc: sg.Draw(t, "scenario"), Step: rapid.SampledFrom([]string{"A", "A", "B", "B", "C"}).Draw(t, "terminal step")}
 		c.Sc.Opts.DropOffAge = rapid.IntRange(1, 8).Draw(t, "small dropoff age") // stagnation, purges and delta coding occur
@@ -55,6 +55,12 @@ func CheckC09(c C09Case, rec *Rec) error {
 	}
 	if err != nil {
 		return err
+	}
+	if sc.IdsMod > 0 {
+		for i, o := range pop.Organisms {
+			o.Genotype.Id = i % sc.IdsMod
+		}
+		rec.Class("organisms start with non-unique genome ids")
 	}
 	ctx := opts.NeatContext()
 	exec := &genetics.SequentialPopulationEpochExecutor{}
